@@ -23,6 +23,10 @@ CHECKS = {
          "explicit-state search to a fix-point over the real cursor objects in lock-step with a reference cursor",
          "All reachable (start,pos) states of parse.Input and buffer.Lexer are enumerated (BFS to a fix-point, successor = fresh object + shortest history + one operation) for every byte string up to the bound over an alphabet holding every truncated UTF-8 shape, for 11 constructors incl. failing readers; every observer and mutator result is compared with a reference cursor, the caller's array is compared before/after Restore. Exhaustive within the bound; nothing is sampled.",
          "Bound: inputs of <=4 (quick) / <=5 (thorough) atoms; contract-respecting operations only; reflection reads private start/pos/buf/err to justify state merging."),
+ "C13": ("model_checking",
+         "explicit-state, deviation-bounded search over operation histories and reader answers on the real StreamLexer with a lock-step reference cursor and a ledger of returned slices",
+         "For each case (data, initial buffer size incl. 0 and default, reader ending with EOF or failing at offset f, start state initial or after 1-4 canonical token-loop iterations) a BFS explores every contract-respecting history up to the depth bound; each Read call of the environment is a choice point (fill, zero-length, 1, 2, all-but-one, error/EOF together with the last bytes) within a deviation bound; states are de-duplicated on a reflective key of the private state. After every step all results are compared with a cursor over the completely read input, Err() against the three clauses, ShiftLen against shifted+skipped, and every unfreed slice returned by Shift/Lexeme against its bytes. Periodic streams check that held capacity does not grow between 128 and 256 tokens.",
+         "Bounds: depth 7 (quick) / 9 (thorough) operations beyond the start state, <=2/3 reader deviations, data <=10 bytes. Known finding: Lexeme() slices of the unfinished token are not preserved across a refill (see known_findings.txt)."),
  "C19": ("model_checking",
          "exhaustive enumeration of write histories x byte order x backend/environment behaviour x truncation, and of all (position, offset, whence) / (position, length) pairs, against encoding/binary, bytes.Reader and the io contracts",
          "Every history of <=3 typed writes over 27 op/value pairs (both byte orders) is compared with encoding/binary and read back on 15 backends or environment behaviours (memory, Bytes() reader, ReadSeeker incl. 1-byte chunks and EOF-with-data, ReaderAt with nil/EOF on exact fit, plain readers, *os.File, mmap) with the data truncated at every byte: values, Pos, Len, Err before/after the first over-run, stability of returned byte strings. Seek from every position x every offset x whence 0..3 and Read/ReadAt for every (pos,len) on L<=6 bytes are compared with bytes.Reader and the io.Reader/io.ReaderAt clauses; all bit strings <=17 bits and all buffers <=2 bytes go through the bitmap types.",
